@@ -19,7 +19,7 @@ DROP = ("to:nilrecv", "from:nilarg")
 
 BASE = dict(embeds=0.0, shadow=0.0, multi=0.0, unexported=0.0,
             kinds=["same"] * 5 + ["conv"] * 3 + ["func"] * 2 + ["sub"] * 2 + ["each"] + ["none", "misconv", "oneway"],
-            names=["ident"] * 8 + ["acronym"] * 2 + ["tag"] * 2, n=(3, 6))
+            names=["ident"] * 8 + ["acronym"] * 2 + ["tag"] * 2 + ["caseonly"] * 2, n=(3, 6))
 
 
 def settle_way(rng, sp):
@@ -109,6 +109,22 @@ def shaped(g, rng):
             pl = [F("Note", STR), F("Rank", INT), F("ID", INT), F("Title", STR)]
             sp = mapgen.mk_spec(pl, nw, dest_kind="new", sname="Doc") if sd == "dest" else mapgen.mk_spec(nw, pl, src_kind="new", sname="Doc")
             out.append(("ptr-embed-without-ctor-params-" + sd, sp))
+    # -i with names that match only case-insensitively, the fields reachable through the constructor alone (seeded change C15-11):
+    # constructor parameters honour -i like the field statements do
+    for sd in ("dest", "src", "dest", "src"):
+        sp = g.pair(**dict(BASE, names=["caseonly", "caseonly", "ident"], kinds=["same", "conv"], n=(3, 5), flags={"i": True, "way": "both"},
+                           func_over=0.0, mapper_idle=0.0))
+        out.append(("i-caseonly-ctor-only-" + sd, mapgen.to_new(rng, sp, sd, getonly=1.0, setonly=0.0, keep_exported=0.0, newmark=0.0)))
+    # a nested struct held by POINTER on the plain side against a get-only VALUE (or pointer) field of the shoot-new side, the
+    # pointer nil in turn (seeded change C15-12 maps it inside the constructor call and dereferences nil)
+    for sd in ("dest", "src"):
+        for bp in (False, True):
+            a = mapgen.P(mapgen.SRC_SUB if sd == "dest" else mapgen.DEST_SUB)
+            b0 = mapgen.DEST_SUB if sd == "dest" else mapgen.SRC_SUB
+            nw = [mapgen.F("addr", mapgen.P(b0) if bp else b0, get=True), mapgen.F("id", mapgen.INT)]
+            pl = [mapgen.F("Addr", a), mapgen.F("ID", mapgen.INT)]
+            sp = mapgen.mk_spec(pl, nw, dest_kind="new", sname="Doc") if sd == "dest" else mapgen.mk_spec(nw, pl, src_kind="new", sname="Doc")
+            out.append(("ctor-only-nested-from-nil-pointer-" + sd, sp))
     # getters whose own name begins with "Set" (seeded change C15-5): Settings() / Setup() are matched under their whole name,
     # only SETTERS lose the prefix; `up` is the remainder Setup would collide with
     for sd in ("dest", "src"):
